@@ -289,7 +289,9 @@ func genC08(seed uint64) (*Scenario, *c08Meta) {
 	if m.Fixed {
 		sc.Procs[0].Flags = map[string]string{"IMPORT_FORMAT": "FIXED"}
 	}
+	sc.Procs[0].Flags = mergeFlags(swarmFlags(Sub(seed, "c08-flags"), 0.3, true), sc.Procs[0].Flags)
 	renderC08(sc, m)
+	avoidBareCR(sc.Procs[0].Flags, sc.Files, strings.Join(sc.Procs[0].Statements, "\n"))
 	if big {
 		sc.Knobs = Knobs{RowStride: 16, Pool: "lifo", MinPerCore: r.Pick(0, 20)}
 	} else {
